@@ -2,10 +2,16 @@ package main
 
 // propRules: which rules decide which property.
 var propRules = map[string][]ruleSpec{
+	"C11": {
+		{"R14", "Cast / Constant / ConstantOfShape tables", ruleR14},
+		{"R20", "source dtypes covered by the scalar wrapper", ruleR20Scalar},
+		{"R21", "attribute state read-only after Init", ruleR21},
+	},
 	"C07": {
 		{"R9", "user axes validated (R9a) and normalised (R9b)", ruleR9},
 		{"R3", "clone before Reshape (E2)", ruleR3},
 		{"R20", "Data() passes the scalar wrapper before slice assertions", ruleR20Scalar},
+		{"R21", "attribute state read-only after Init", ruleR21},
 	},
 	"C08": {
 		{"R9", "user axes/indices validated (R9a) and normalised (R9b)", ruleR9},
@@ -13,17 +19,21 @@ var propRules = map[string][]ruleSpec{
 		{"R3", "operands not modified (E2)", ruleR3},
 		{"R19", "Slice restores the rank gorgonia drops", ruleR19},
 		{"R20", "Data() passes the scalar wrapper before slice assertions", ruleR20Scalar},
+		{"R21", "attribute state read-only after Init", ruleR21},
 	},
 	"C09": {
 		{"R9", "requested axes normalised before reaching gorgonia (R9b; R9a as notes)", ruleR9},
 		{"R3", "operands not modified (E2)", ruleR3},
 		{"R20", "keepdims <=> reshape; ArgMax int64", ruleR20Keepdims},
 		{"R20s", "Data() passes the scalar wrapper before slice assertions", ruleR20Scalar},
+		{"R21", "attribute state read-only after Init", ruleR21},
 	},
 	"C14": {
 		{"R10", "Repeat only as a guarded stretch", ruleR10},
 		{"R3", "sources never modified (E2)", ruleR3},
 		{"R20", "unidirectional rank rule, first operand as is, ones prepended, rank equalisation", ruleR20Broadcast},
+		{"R22", "gorgonia's lax Shape.Eq does not decide shape matching", ruleR22},
+		{"R23", "per-axis loops visit every axis", ruleR23},
 	},
 	"C18": {
 		{"R15", "load path is panic-free", ruleR15},
@@ -44,6 +54,7 @@ var propRules = map[string][]ruleSpec{
 		{"R17", "validateShapes structure V1-V8", ruleR17},
 		{"R5", "validator runs first (M1)", ruleR5},
 		{"R3", "validator touches no tensor (E2)", ruleR3},
+		{"R22", "gorgonia's lax Shape.Eq does not decide shape matching", ruleR22},
 	},
 	"C02": {
 		{"R3", "borrowed tensors / shared storage never mutated (E2)", ruleR3},
